@@ -101,13 +101,22 @@ func (w *jsonWorld) Gen(seed uint64, tier string) *Plan {
 		}
 		id++
 	}
-	genLoad := func() {
+	// script: "" an arbitrary load; "reject": a well-formed document of some other container's content with one wrongly
+	// typed element or member after the first (a decoder stops there, having seen the good ones); "nulls": such a
+	// document, intact but for some null elements (which denote zero values, whatever the decoder's target held)
+	var genLoadAs func(script string)
+	genLoad := func() { genLoadAs("") }
+	genLoadAs = func(script string) {
 		var base []byte
 		var kinds []string
-		if !sweep && p.Cfg.Mode != "big" && r.P(1, 3) {
+		if !sweep && p.Cfg.Mode != "big" && r.P(1, 3) && script == "" {
 			warm(nClients) // ... right before the load
 		}
-		switch r.Weighted(8, 3, 6, 3) {
+		src := r.Weighted(8, 3, 6, 3)
+		if script != "" {
+			src = 2
+		}
+		switch src {
 		case 0:
 			base = s.EncodeModel()
 		case 1:
@@ -130,7 +139,11 @@ func (w *jsonWorld) Gen(seed uint64, tier string) *Plan {
 				kinds = append(kinds, "F17-foreign-writer")
 			}
 			tc := &Client{Role: roles[r.Intn(len(roles))]}
-			for i := r.Intn(12); i > 0; i-- {
+			nt := r.Intn(12)
+			if script != "" {
+				nt = r.Range(4, 14)
+			}
+			for i := nt; i > 0; i-- {
 				t.ModelApply(t.GenOp(r, 100000+i, tc))
 			}
 			base = t.EncodeModel()
@@ -138,7 +151,22 @@ func (w *jsonWorld) Gen(seed uint64, tier string) *Plan {
 			base = []byte(wrongKindDocs[r.Intn(len(wrongKindDocs))])
 			kinds = append(kinds, "F10-wrong-document-kind")
 		}
-		for nf := r.Weighted(2, 6, 2); nf > 0; nf-- {
+		nFaults := r.Weighted(2, 6, 2)
+		switch script {
+		case "reject":
+			base = applyLateTypeFault(r, base)
+			kinds = append(kinds, "F11-wrong-type-element")
+			nFaults = 0
+		case "nulls":
+			k := "F18-null-elements"
+			if cfg.Elem == "item" && r.Bool() {
+				k = "F14-partial-struct"
+			}
+			base = applyDocFault(r, k, base, cfg.Elem, cfg.Cap)
+			kinds = append(kinds, k)
+			nFaults = 0
+		}
+		for nf := nFaults; nf > 0; nf-- {
 			if r.P(3, 5) {
 				k := byteFaults[r.Intn(len(byteFaults))]
 				base = applyByteFault(r, k, base)
@@ -184,7 +212,24 @@ func (w *jsonWorld) Gen(seed uint64, tier string) *Plan {
 				id++
 			}
 		} else if !sweep && r.P(1, 5) {
-			genLoad()
+			if r.P(1, 8) {
+				// a load onto a container that was just emptied (it keeps whatever Clear keeps: capacity, nodes)
+				cop := Op{ID: id, N: "Clear", C: ci}
+				s.ModelApply(cop)
+				p.Ops = append(p.Ops, cop)
+				id++
+			}
+			if r.P(1, 8) {
+				// a rejected document followed at once by an accepted one with nulls: whatever the rejected one's good
+				// elements left behind (in spare capacity, in a table, in recycled nodes) must not show through
+				genLoadAs("reject")
+				genLoadAs("nulls")
+			} else {
+				genLoad()
+				if r.P(1, 4) {
+					genLoad() // two loads in a row: what the first one leaves behind meets the second
+				}
+			}
 		}
 	}
 	if w.prop == "C11" {
